@@ -776,6 +776,7 @@ static struct {
 } cur;
 
 static int any_violation;       /* --one: exit status */
+static long one_pcap = -1;      /* >= 0 while a capacity case runs: the capacity belongs to the replay */
 
 #define MAX_SIGS 64
 static struct { char sig[160]; uint64_t n; } sigtab[MAX_SIGS];
@@ -903,6 +904,8 @@ static void report_death(const char *kind)
     } else if (cur.s) {
         tb_f(&one, "parse ");
         tb_pct(&one, cur.s, cur.n);
+        if (one_pcap >= 0)
+            tb_f(&one, " %ld", one_pcap);
     }
     out_f("{\"t\":\"crash\",\"kind\":\"%s\",\"batch\":%d,\"case\":%llu,\"fn\":\"%s\",\"one\":", kind,
           batch_id, (unsigned long long)case_idx, cur.fn ? cur.fn : "?");
@@ -1217,6 +1220,8 @@ static void one_parse(struct tb *one, const char *s, size_t n)
     one->n = 0;
     tb_f(one, "parse ");
     tb_pct(one, s, n);
+    if (one_pcap >= 0)
+        tb_f(one, " %ld", one_pcap);
 }
 
 static void parse_finding(const char *sig, const struct fdesc *f, const char *s, size_t n,
@@ -2324,6 +2329,7 @@ static void capacity_case(const struct fdesc *f, const char *s, size_t n, size_t
     char *in = in_block(s, n);
     struct pres p;
     struct mres m;
+    one_pcap = (long)cap;
     call_str_parse(f, in, n, cap, false, &p);
     st.nontrivial++;
     if (f->kind == FK_PROTO) {
@@ -2339,6 +2345,7 @@ static void capacity_case(const struct fdesc *f, const char *s, size_t n, size_t
         judge_typed(f, in, n, &m, &p);
     }
     cur.fn = NULL;
+    one_pcap = -1;
     in_release(in, n);
     case_idx++;
 }
@@ -2517,6 +2524,8 @@ static int run_one(int argc, char **argv)
             int own = c ? tp_by_name(s, (size_t)(c - s), NULL) : -1;
             if (own >= T_UX)
                 capacity_case(&F_UX_PARSE[own - T_UX], s, n, cap);
+            if (own == T_UX)
+                capacity_case(&F_UXC_PARSE, s, n, cap);
             if (c)
                 capacity_case(&F_PROTO, s, n, cap);
         }
